@@ -2,6 +2,7 @@ import Dmn.Lemmas.ModelBuild
 import Dmn.Lemmas.XmlMandatory
 import Dmn.Lemmas.XmlTable
 import Dmn.Lemmas.ModelEvalCost
+import Dmn.Lemmas.DrgDfs
 
 /-!
 # C12 — loading any model text yields a usable model or an error, never a crash (proof part)
@@ -31,7 +32,7 @@ theorem dt_eval_no_panic_wf (t : DT.Table) (wf : t.WF = true) : (DT.evaluate t).
   have hlist : ∀ rs : List Rule, (∀ r ∈ rs, r.outputs ≠ []) →
       (getResultsList (evalTable t) (rs.map evalRule)).isPanic = false := by
     intro rs h
-    simp [getResultsList, getResults_map_evalRule t rs h, Outcome.isPanic]
+    simp [getResultsList, getResults_map_evalRule t rs h, DT.Outcome.isPanic]
   have hperm : (prioritized (evalTable t)).Perm (matching (evalTable t).rules) := sortStable_perm _ _
   rw [matching_evalTable] at hperm
   have hprio : ∀ e ∈ prioritized (evalTable t), ∃ r ∈ Spec.matchingRules t, e = evalRule r := by
@@ -49,7 +50,7 @@ theorem dt_eval_no_panic_wf (t : DT.Table) (wf : t.WF = true) : (DT.evaluate t).
       | cons r rs =>
         have := firstOutputs_map_evalRule site (r :: rs) (by rw [← hm]; exact hne)
         simp only [List.map_cons] at this
-        simp [this, Outcome.isPanic]
+        simp [this, DT.Outcome.isPanic]
   simp only [evaluate]
   cases hp : t.hitPolicy <;> simp only
   · -- unique
@@ -60,7 +61,7 @@ theorem dt_eval_no_panic_wf (t : DT.Table) (wf : t.WF = true) : (DT.evaluate t).
       cases rs with
       | nil =>
         obtain ⟨v, hv⟩ := hres r (by simp [hm])
-        simp [hv, Outcome.isPanic]
+        simp [hv, DT.Outcome.isPanic]
       | cons r' rs' => rfl
   · -- any
     simp only [hitAny, matching_evalTable]
@@ -80,14 +81,14 @@ theorem dt_eval_no_panic_wf (t : DT.Table) (wf : t.WF = true) : (DT.evaluate t).
     | cons e es =>
       obtain ⟨r, hr, rfl⟩ := hprio e (by simp [hs])
       obtain ⟨v, hv⟩ := hres r hr
-      simp [hv, Outcome.isPanic]
+      simp [hv, DT.Outcome.isPanic]
   · -- first
     simp only [hitFirst, matching_evalTable]
     cases hm : Spec.matchingRules t with
     | nil => rfl
     | cons r rs =>
       obtain ⟨v, hv⟩ := hres r (by simp [hm])
-      simp [hv, Outcome.isPanic]
+      simp [hv, DT.Outcome.isPanic]
   · -- rule order
     simp only [hitRuleOrder, matching_evalTable]
     cases hm : Spec.matchingRules t with
@@ -128,10 +129,10 @@ theorem dt_build_no_panic (t : TableS) : (buildTable t).isPanic = false := by
   split
   · split
     · split
-      · simp [Outcome.isPanic]
+      · simp [DT.Outcome.isPanic]
       · exact ruleLoop_no_panic _ _ _
-    · simp [Outcome.isPanic]
-  · simp [Outcome.isPanic]
+    · simp [DT.Outcome.isPanic]
+  · simp [DT.Outcome.isPanic]
 
 /-- The old witnesses of F11 (repaired by f36e6c9). Two input clauses, a rule with one input entry: -/
 def shortRule : TableS := ⟨[⟨true, none⟩, ⟨true, none⟩], [⟨none, none, none⟩], [⟨[true], [true]⟩]⟩
@@ -787,3 +788,218 @@ theorem lone_root_any_layout (uri : Str → UriOut) (o : FeelOracle) (n m i c t 
   rfl
 
 end Dmn.Xml
+
+namespace Dmn.MB
+open Dmn
+
+/-! ## What acceptance by `ModelEvaluator::new` guarantees
+
+`build d fuel = .ok` is acceptance: `check_requirements` passed (`model_evaluator.rs:54-106`), every input data has a
+type reference (`input_data_context_evaluator`), `check_references` passed (`item_definition.rs:74-97`), and every
+knowledge model, decision and decision service was built.  `Wf` states, independently of those checks, what an
+accepted model is.  What is **not** checked (and so not part of `Wf`): that a required decision / knowledge model /
+input exists — `requirements.get(id)` and the evaluators' `HashMap::get` answer `None` for an identifier no element
+has, the requirement is skipped and evaluates to null (`dangling_requirement_accepted`); that identifiers and names
+are unique — entries of elements sharing an identifier are merged in the requirement map (`reqList`), later evaluators
+replace earlier ones in the maps. -/
+
+/-- Well-formedness of a definitions value, stated without the checking code. -/
+structure Wf (d : Defs) : Prop where
+  /-- no non-empty set of decisions, knowledge models and decision services each of which requires a member of the set -/
+  reqAcyclic : ∀ C : Nat → Prop, ReqCycle d C → ∀ id, ¬ C id
+  /-- every chain of requirements ends: below every identifier the requirement relation is well-founded to a depth -/
+  reqEnds : ∀ id, ReqDfs.Ends (reqsOf d) id
+  /-- no non-empty set of item definitions each of which refers to a member of the set -/
+  itemsAcyclic : ∀ C : Nat → Prop, ItemCycle d.items C → ∀ n, ¬ C n
+  /-- every input data has a type reference -/
+  inputsTyped : ∀ i ∈ d.inputs, i.typeRef.isSome = true
+
+theorem forM_ok_all {α : Type} (f : α → Res) : ∀ xs : List α, forM f xs = .ok → ∀ x ∈ xs, f x = .ok := by
+  intro xs
+  induction xs with
+  | nil => intro _ x hx; cases hx
+  | cons y ys ih =>
+    intro h x hx
+    simp only [forM] at h
+    cases hy : f y with
+    | ok =>
+      rw [hy] at h
+      simp only [seq] at h
+      rcases List.mem_cons.mp hx with rfl | hx
+      · exact hy
+      · exact ih h x hx
+    | error => rw [hy] at h; simp [seq] at h
+    | diverge => rw [hy] at h; simp [seq] at h
+
+/-- **A model that `ModelEvaluator::new` accepts is well-formed**, for every definitions value and any fuel: its
+requirement graph has no cycle and every chain of requirements ends, its item definitions have no reference cycle,
+its input data are typed. -/
+theorem accepted_model_is_wellformed (d : Defs) (fuel : Nat) (h : build d fuel = .ok) : Wf d := by
+  have hr : reqCheck d = true := by
+    unfold build at h
+    by_cases hr : reqCheck d = true
+    · exact hr
+    · simp [hr] at h
+  refine ⟨?_, ?_, ?_, ?_⟩
+  · intro C hC id hid
+    have := cyclic_requirements_rejected d C hC id hid fuel
+    rw [this] at h; cases h
+  · intro id
+    exact ⟨nodeCount d, by rw [← reqChain_eq]; exact reqChain_of_check d hr id⟩
+  · intro C hC n hn
+    have := cyclic_items_rejected d C hC n hn fuel
+    rw [this] at h; cases h
+  · unfold build at h
+    simp only [hr, Bool.not_true, Bool.false_eq_true, if_false] at h
+    cases hq : forM (fun i : Input => if i.typeRef.isSome then Res.ok else Res.error) d.inputs with
+    | ok =>
+      intro i hi
+      have := forM_ok_all _ _ hq i hi
+      by_cases ht : i.typeRef.isSome = true
+      · exact ht
+      · simp [ht] at this
+    | error => rw [hq] at h; simp [seq] at h
+    | diverge => rw [hq] at h; simp [seq] at h
+
+/-- non-vacuity: the model with two levels of knowledge models and a referenced item definition is accepted -/
+example : build okDefs 4 = .ok := by decide
+
+/-- Conversely the two cycle checks reject nothing but cycles: when every chain of requirements ends, the requirement
+check passes (so acceptance then depends only on the typed inputs, the item definitions and the elements' own
+builders). -/
+theorem wellformed_requirements_accepted (d : Defs) (h : ∀ id, ReqDfs.Ends (reqsOf d) id) : reqCheck d = true := by
+  rw [reqCheck_eq_chains]
+  simp only [reqCheckChains, List.all_eq_true]
+  intro id _
+  rw [reqChain_eq]
+  exact ReqDfs.chainOk_of_ends (reqsOf d) (nodeCount d)
+    (fun l hnd hk => nodeCount_bound d l hnd (fun x hx => reqsOf_key d x (hk x hx))) id (h id)
+
+/-- Dangling references, as the code does it.  A knowledge requirement of a decision that names no knowledge model
+and no decision service is an error when the model is built (`bring_knowledge_requirements_into_context`:
+`business_knowledge_model.rs:302-318`) — an accepted model has none (`accepted_knowledge_resolves`).  A required
+decision or a required input that names no element is **accepted**: the identifier has no entry in the requirement map
+and no evaluator, it is skipped when the model is built and when the decision is evaluated (the required value is
+null); resolvability of those references is therefore not part of `Wf`. -/
+theorem dangling_references_as_the_code_does :
+    let d1 : Defs := ⟨[], [], [], [⟨0, none, [], [⟨some 99, none⟩, ⟨none, some 97⟩]⟩], []⟩
+    let d2 : Defs := ⟨[], [], [], [⟨0, none, [98], []⟩], []⟩
+    (build d1 (bound d1) = .ok ∧ evalDecision d1 (bound d1) 0 = .ok ∧ reqsOf d1 99 = none ∧ Wf d1) ∧
+    build d2 (bound d2) = .error := by
+  intro d1 d2
+  have hb : build d1 (bound d1) = .ok := by decide
+  exact ⟨⟨hb, by decide, by decide, accepted_model_is_wellformed d1 _ hb⟩, by decide⟩
+
+theorem allM_ok_all (f : Nat → Res) : ∀ xs : List Nat, allM f xs = .ok → ∀ x ∈ xs, f x = .ok := by
+  intro xs
+  induction xs with
+  | nil => intro _ x hx; cases hx
+  | cons y ys ih =>
+    intro h x hx
+    simp only [allM] at h
+    cases hy : f y with
+    | ok =>
+      rw [hy] at h
+      rcases List.mem_cons.mp hx with rfl | hx
+      · exact hy
+      · exact ih h x hx
+    | error => rw [hy] at h; cases h
+    | diverge => rw [hy] at h; cases h
+
+/-- In an accepted model every knowledge requirement of every decision resolves: it names a knowledge model or a
+decision service. -/
+theorem accepted_knowledge_resolves (d : Defs) (fuel : Nat) (h : build d fuel = .ok) :
+    ∀ x ∈ d.decisions, ∀ k ∈ x.knowledge, (findBkm d k).isSome = true ∨ (findService d k).isSome = true := by
+  intro x hx k hk
+  unfold build at h
+  by_cases hr : reqCheck d = true
+  · simp only [hr, Bool.not_true, Bool.false_eq_true, if_false] at h
+    cases h1 : forM (fun i : Input => if i.typeRef.isSome then Res.ok else Res.error) d.inputs with
+    | error => rw [h1] at h; simp [seq] at h
+    | diverge => rw [h1] at h; simp [seq] at h
+    | ok =>
+      rw [h1] at h
+      simp only [seq] at h
+      by_cases hi : itemCheck d.items = true
+      · simp only [hi, Bool.not_true, Bool.false_eq_true, if_false] at h
+        cases h2 : forM (buildBkm d fuel) d.bkms with
+        | error => rw [h2] at h; simp at h
+        | diverge => rw [h2] at h; simp at h
+        | ok =>
+          rw [h2] at h
+          simp only at h
+          cases h3 : forM (buildDecision d fuel) d.decisions with
+          | error => rw [h3] at h; simp at h
+          | diverge => rw [h3] at h; simp at h
+          | ok =>
+            have hbx := forM_ok_all _ _ h3 x hx
+            unfold buildDecision at hbx
+            cases h4 : walkRef d.items fuel x.varType with
+            | error => rw [h4] at hbx; simp [seq] at hbx
+            | diverge => rw [h4] at hbx; simp [seq] at hbx
+            | ok =>
+              rw [h4] at hbx
+              simp only [seq] at hbx
+              cases h5 : bringKR d fuel x.knowledge with
+              | error => rw [h5] at hbx; simp at hbx
+              | diverge => rw [h5] at hbx; simp at hbx
+              | ok =>
+                have hk1 := allM_ok_all _ _ h5 k hk
+                unfold bringOne at hk1
+                cases hb : findBkm d k with
+                | some b => exact Or.inl rfl
+                | none =>
+                  rw [hb] at hk1
+                  by_cases hs : (findService d k).isSome = true
+                  · exact Or.inr hs
+                  · simp [hs] at hk1
+      · simp [hi] at h
+  · simp [hr] at h
+
+/-! ### The hypothesis of C04's theorems as a consequence of acceptance
+
+C04's theorems about evaluation over the requirement graph (`built_graph_ranked`, `built_graph_fuel_suffices`,
+`graph_bottom_never_reached`) assume `g.checkRequirements = true` for the graph `g : Drg` of C04's model (string
+identifiers).  Both models instantiate the same generic check (`Dmn.ReqDfs`) with their requirement maps; when the
+numbered definitions `d` describe the graph `g` — a numbering `num` of the identifiers under which the requirement
+map of `d` is the one of `g` — acceptance of `d` gives C04's hypothesis for `g`. -/
+
+theorem chainOk_transfer {g : Drg} {d : Defs} (num : String → Nat)
+    (hmap : ∀ id, reqsOf d (num id) = (g.requirementsOf id).map (List.map num)) :
+    ∀ (b : Nat) (id : String), ReqDfs.chainOk (reqsOf d) b (num id) = ReqDfs.chainOk g.requirementsOf b id := by
+  intro b
+  induction b with
+  | zero =>
+    intro id
+    unfold ReqDfs.chainOk
+    rw [hmap]
+    cases g.requirementsOf id <;> rfl
+  | succ b ih =>
+    intro id
+    rw [ReqDfs.chainOk, ReqDfs.chainOk, hmap]
+    cases g.requirementsOf id with
+    | none => rfl
+    | some rs =>
+      simp only [Option.map_some, List.all_map]
+      congr 1
+      funext r
+      exact ih r
+
+/-- **C04's hypothesis holds of every accepted model**: if the definitions `d` (numbered identifiers) describe the
+requirement map of the graph `g` and `ModelEvaluator::new` accepts `d`, then `g.checkRequirements = true` — the
+hypothesis of `built_graph_ranked` and `built_graph_fuel_suffices` (property C04), which therefore apply to every model
+the builder accepts. -/
+theorem accepted_model_satisfies_c04_hypothesis (g : Drg) (d : Defs) (num : String → Nat)
+    (hmap : ∀ id, reqsOf d (num id) = (g.requirementsOf id).map (List.map num))
+    (fuel : Nat) (h : build d fuel = .ok) : g.checkRequirements = true := by
+  have hw := accepted_model_is_wellformed d fuel h
+  simp only [Drg.checkRequirements, List.all_eq_true]
+  intro id _
+  rw [Drg.checkChain_eq]
+  apply ReqDfs.chainOk_of_ends g.requirementsOf g.requirementCount
+  · intro l hnd hk
+    exact Drg.length_le_distinctCount g.requirementIds l hnd (fun x hx => Drg.requirementsOf_key g x (hk x hx))
+  · obtain ⟨b, hb⟩ := hw.reqEnds (num id)
+    exact ⟨b, by rw [← chainOk_transfer num hmap]; exact hb⟩
+
+end Dmn.MB
